@@ -29,7 +29,8 @@ def setup(ctx, label, tts, order=None, extra_mgr=False):
 
 OPS = ['and', 'xor', 'ite', 'quantify', 'apply_exists', 'apply_forall', 'let_bool', 'let_ref',
        'let_name', 'cube', 'var', 'copy', 'image', 'preimage', 'find_or_add', 'compose1',
-       'quantify_levels', 'cofactor_levels', 'quantify_forall']
+       'quantify_levels', 'cofactor_levels', 'quantify_forall',
+       'compose_direct1', 'compose_direct2', 'rename_direct']
 
 
 def run_one(ctx, opname, tts, k, natural=None):
@@ -91,6 +92,14 @@ def run_one(ctx, opname, tts, k, natural=None):
     elif opname == 'compose1':
         r = M.op('let_ref', {1: u1}, u0)
         expect = T.vector_compose(t0, n, {1: t1})
+    elif opname in ('compose_direct1', 'compose_direct2'):
+        # the public `BDD.compose` itself (not through `let`), one and two variables
+        one = opname.endswith('1')
+        r = M.op('compose', u0, {1: u1} if one else {0: u1, 2: u2})
+        expect = T.vector_compose(t0, n, {1: t1} if one else {0: t1, 2: t2})
+    elif opname == 'rename_direct':
+        r = M.op('rename', u0, {0: 1, 1: 0, 2: 3})
+        expect = T.rename(t0, n, {0: 1, 1: 0, 2: 3})
     elif opname == 'let_name':
         r = M.op('let_name', {0: 1, 1: 0, 2: 3}, u0)
         expect = T.rename(t0, n, {0: 1, 1: 0, 2: 3})
